@@ -65,6 +65,8 @@ from .annotationparser import (
     OPT_ARRAY_FIXED_SIZE,
     OPT_ARRAY_LENGTH,
     OPT_ARRAY_ZERO_TERMINATED,
+    OPT_NOT_NULLABLE,
+    OPT_NOT_OPTIONAL,
     OPT_OUT_CALLEE_ALLOCATES,
     OPT_OUT_CALLER_ALLOCATES,
     OPT_TRANSFER_CONTAINER,
@@ -781,10 +783,14 @@ class MainTransformer(object):
                  node.type.target_giname == 'Gio.Cancellable')):
             node.nullable = True
 
-        # Final override for nullability
+        # Final override for nullability and optionality
         if ANN_NOT in annotations:
-            node.nullable = False
-            node.not_nullable = True
+            not_options = annotations[ANN_NOT]
+            if OPT_NOT_NULLABLE in not_options:
+                node.nullable = False
+                node.not_nullable = True
+            if OPT_NOT_OPTIONAL in not_options:
+                node.optional = False
 
         if tag and tag.description:
             node.doc = tag.description
